@@ -149,8 +149,8 @@ def oracle(tier, rng, deep=False):
     D, P = instances(rng, n, p)
     cells = [(s, d, pn, sp_, fi, sd) for s in tab["solvers"] for d in D for pn in P for sp_ in (False, True) for fi in (False, True) for sd in (True, False)
              if model_validate(tab, s, d, pn, sp_, sd) == "accepted"]
-    if tier == "quick" and not deep:
-        cells = rng.sample(cells, 70)
+    if tier == "quick":
+        cells = rng.sample(cells, 70 if not deep else 250)
     failures = []
     ev = 0
     EXPL = ("not compatible", "must implement", "Missing", "positive values", "not supported", "Sparse matrices", "should", "must be", "has no attribute",
@@ -181,7 +181,7 @@ def oracle(tier, rng, deep=False):
     flips = [(s, d, pn, fi, sd) for s in tab["solvers"] for d in D for pn in P for fi in (False,) for sd in (True, False)
              if model_validate(tab, s, d, pn, False, sd) == "accepted" and model_validate(tab, s, d, pn, True, sd) == "refused"]
     if flips:
-        for (s, d, pn, fi, sd) in (rng.sample(flips, min(len(flips), 10)) if tier == "quick" and not deep else flips):
+        for (s, d, pn, fi, sd) in (rng.sample(flips, min(len(flips), 10 if not deep else 40)) if tier == "quick" else flips):
             y = targets(rng, X, D[d][1])
             site = f"{s}:{d}:{pn}"
             inp = dict(solver=s, datafit=d, penalty=pn, history=["dense", "csc"], subdiff=sd)
